@@ -104,7 +104,7 @@ func (c *Client) Close() error {
 func (c *Client) LockFile(path string) (Lock, error) {
 	lockRes, _, err := c.client.Lock(c.Remote, &lockRequest{
 		Path: path,
-		Ref:  &lockRef{Name: c.RemoteRef.Refspec()},
+		Ref:  newLockRef(c.RemoteRef),
 	})
 	if err != nil {
 		return Lock{}, errors.Wrap(err, tr.Tr.Get("locking API"))
@@ -254,13 +254,8 @@ func (c *Client) SearchLocksVerifiable(limit int, cached bool) (ourLocks, theirL
 		})
 		return locks.Ours, locks.Theirs, err
 	} else {
-		var requestRef *lockRef
-		if c.RemoteRef != nil {
-			requestRef = &lockRef{Name: c.RemoteRef.Refspec()}
-		}
-
 		body := &lockVerifiableRequest{
-			Ref:   requestRef,
+			Ref:   newLockRef(c.RemoteRef),
 			Limit: limit,
 		}
 
